@@ -50,9 +50,15 @@ class Report:
     def finish(self):
         """print verdict lines, write evidence, return exit code"""
         # instance floors: a rule that matched (almost) nothing is broken, not passing
-        for rid, r in self.rules.items():
-            if r["n"] < r["floor"]:
+        # ... unless the same run has concrete, unlisted violations to show: those are reported (exit 1) with the floor as a note
+        low = [(rid, r) for rid, r in self.rules.items() if r["n"] < r["floor"]]
+        if low:
+            listed = {(k["rule"], k["function"], k["key"]) for k in load_known() if k.get("property") == self.prop and k.get("status", "finding") == "finding"}
+            if not any((not o["ok"]) and (o["rule"], o["function"], o["key"]) not in listed for o in self.obl):
+                rid, r = low[0]
                 raise AnalysisBroken("rule %s matched %d instances, floor is %d (%s)" % (rid, r["n"], r["floor"], r["desc"]))
+            for rid, r in low:
+                print("note: rule %s matched %d instances (floor %d)" % (rid, r["n"], r["floor"]))
         known = [k for k in load_known() if k.get("property") == self.prop and k.get("status", "finding") == "finding"]
         fails = [o for o in self.obl if not o["ok"]]
         viol = []
